@@ -297,6 +297,43 @@ def unusual_rsa_keys(ctx, rng):
                                   {"dir": "A-rare", "alg": a, "token": o.value})
 
 
+def non_finite_header_values(ctx, rng):
+    """a header value that holds NaN / Infinity (inside "jwk", or a parameter the caller registered): either the call refuses it, or what is signed is a
+    JSON object - Python's encoder writes the bare words NaN / Infinity, which RFC 8259 does not have, so no RFC implementation reads such a header"""
+    j = J.load()
+    from joserfc.registry import HeaderParameter
+    hs = gen.new_oct(256)
+    k, rk = j.key(hs), RefKey.from_jwk(hs)
+    reg = j.jws.JWSRegistry(header_registry={"weight": HeaderParameter("w", "jwk", False)}, algorithms=["HS256"])
+    reg7797 = j.rfc7797.JWSRegistry(algorithms=["HS256"])
+    for wname, w in (("NaN", float("nan")), ("Infinity", float("inf")), ("-Infinity", float("-inf")), ("1.5", 1.5)):
+        for where in ("jwk-member", "registered-parameter"):
+            hdr = {"alg": "HS256", "jwk": {"kty": "oct", "k": "AA", "x-weight": w}} if where == "jwk-member" else {"alg": "HS256", "weight": {"w": [1, w]}}
+            ops = [("jws.serialize_compact", lambda: j.jws.serialize_compact(copy.deepcopy(hdr), b"c07", k, registry=reg)),
+                   ("jws.serialize_json[flat]", lambda: j.jws.serialize_json({"protected": copy.deepcopy(hdr)}, b"c07", k, registry=reg)),
+                   ("jws.serialize_json[unprotected]", lambda: j.jws.serialize_json({"protected": {"alg": "HS256"}, "header": {k_: v for k_, v in copy.deepcopy(hdr).items() if k_ != "alg"}}, b"c07", k, registry=reg))]
+            if where == "jwk-member":
+                ops.append(("rfc7797.serialize_compact", lambda: j.rfc7797.serialize_compact({**copy.deepcopy(hdr), "b64": False, "crit": ["b64"]}, b"c07", k, registry=reg7797)))
+            for op, f in ops:
+                ctx.ev()
+                o = call(f)
+                ctx.count("non_finite_header_cases")
+                ctx.cell("non-finite", wname, op)
+                ctx.nontrivial(("nonfinite", wname, where, op))
+                case = {"non_finite_header_values": True, "value": wname, "where": where, "op": op}
+                if not o.ok:
+                    if wname == "1.5":
+                        ctx.violation(f"produce-fails:{o.key}", f"{op} failed for a header holding the number 1.5: {o.exc!r}", case)
+                    continue
+                tok = o.value
+                r = rjws.verify_compact(tok, rk) if isinstance(tok, str) else rjws.verify_json(tok, rk)
+                ctx.count("a_checked")
+                bad_unprotected = False   # (an unprotected header is handed back as a Python dict: writing it as JSON is the caller's step)
+                if r.verdict != "ACCEPT" or bad_unprotected:
+                    ctx.violation("signed-header-is-not-json:non-finite-number", f"{op} signed a header holding {wname} ({where}): "
+                                  f"{'the unprotected header cannot be written as JSON' if bad_unprotected else 'reference: ' + r.reason}", {**case, "token": tok})
+
+
 def run_shard(ctx):
     sc = selfcheck.run()
     if sc["failed"]:
@@ -313,6 +350,8 @@ def run_shard(ctx):
         rare_signatures(ctx, rng)
     if ctx.shard == 7:
         unusual_rsa_keys(ctx, rng)
+    if ctx.shard == 8:
+        non_finite_header_values(ctx, rng)
     # B: forced grid alg x form x style (round-robin over shards), payload rotating
     forms = ["compact", "flat", "general2", "c7797", "j7797"]
     k = 0
@@ -355,7 +394,9 @@ REQUIRE = [("a_checked", 120, "joserfc->refjose tokens"), ("b_checked", 120, "re
 
 def replay(ctx, case):
     J.load()
-    if case.get("dir") == "B":
+    if case.get("non_finite_header_values"):
+        non_finite_header_values(ctx, ctx.rng)
+    elif case.get("dir") == "B":
         for _ in range(5):
             direction_b(ctx, case["alg"], case["form"], case["style"], B_PAYLOADS[2], ctx.rng)
     elif case.get("dir") == "C":
